@@ -307,10 +307,10 @@ func popStructure(c *Ctx, pop string) {
 	// ring walk: consume's queue is phi(head cell, phi.next)
 	var walks []*ssa.Phi
 	for _, in := range Calls("(*http2.writeQueue).consume").F(c.P, fn) {
-		if ph, ok := in.(*ssa.Call).Call.Args[0].(*ssa.Phi); ok {
+		if ph, ok := BaselineArgs(&in.(*ssa.Call).Call)[0].(*ssa.Phi); ok {
 			walks = append(walks, ph)
 		} else {
-			c.Fail(rule, pop+": ring walk", InstrPos(in), "consume is applied to `"+Term(in.(*ssa.Call).Call.Args[0])+"`, not to a cursor walking the ring")
+			c.Fail(rule, pop+": ring walk", InstrPos(in), "consume is applied to `"+Term(BaselineArgs(&in.(*ssa.Call).Call)[0])+"`, not to a cursor walking the ring")
 			return
 		}
 	}
